@@ -88,6 +88,14 @@ type c01Case struct {
 	Kind       string       `json:"kind"`
 	SameUUID   bool         `json:"same_uuid"` // every message carries the same (empty) UUID: UUIDs need not be unique
 	CtxErr     bool         `json:"ctx_err"`   // a failing handler leaves a cancelled derived context on its copy
+	// a second, unrelated subscription on pipeline topic Bystander (-1: none) of the same GoChannel:
+	// it Nacks its first message once, Acks the rest and cancels itself after BystanderCancel
+	// receives, in the middle of the run - its redeliveries, cancel and teardown must not disturb
+	// the stage's own subscription (C01_gochannel_refines_topic_step: steps of other subscriptions
+	// are stutters).  Not in blocking mode (that would be D9).
+	Bystander       int `json:"bystander"`
+	BystanderCancel int `json:"bystander_cancel"`
+	BystanderGot    int `json:"bystander_got"`
 
 	Srcs   []int          `json:"srcs"` // lineages whose source Publish returned nil
 	Log    []*c01Delivery `json:"log"`
@@ -494,6 +502,32 @@ func c01Run(rt *hookrt.Runtime, c *c01Case, stall time.Duration) {
 		publishSrc(lin)
 	}
 
+	// the bystander subscription
+	byCtx, byCancel := context.WithCancel(context.Background())
+	defer byCancel()
+	if c.Bystander >= 0 && c.Bystander <= c.K && !c.Blocking {
+		byCh, err := psFor(c.Bystander).Subscribe(byCtx, topic(c.Bystander))
+		if err == nil {
+			go func() {
+				n := 0
+				for msg := range byCh {
+					n++
+					c.mu.Lock()
+					c.BystanderGot = n
+					c.mu.Unlock()
+					if n == 1 {
+						msg.Nack()
+						continue
+					}
+					msg.Ack()
+					if n == c.BystanderCancel+1 {
+						byCancel()
+					}
+				}
+			}()
+		}
+	}
+
 	// the sink
 	sinkCtx, sinkCancel := context.WithCancel(context.Background())
 	sinkCh, err := psFor(c.K).Subscribe(sinkCtx, topic(c.K))
@@ -701,6 +735,11 @@ func c01Gen(rng *rand.Rand, id int, big bool) *c01Case {
 	c.Blocking = rng.Intn(4) == 0
 	c.Perturb = rng.Intn(3) == 0
 	c.PanicVal = rng.Intn(3)
+	c.Bystander = -1
+	if rng.Intn(3) == 0 {
+		c.Bystander = rng.Intn(c.K + 1)
+		c.BystanderCancel = 1 + rng.Intn(c.NSrc+1)
+	}
 	if c.Persistent {
 		c.Early = rng.Intn(c.NSrc + 1)
 	}
@@ -773,7 +812,7 @@ func c01Singles(id *int, k, nsrc int, fans [][]int, blocking, persistent bool, b
 	for s := 0; s < k; s++ {
 		for call := 0; call < nsrc+1; call++ {
 			for _, f := range kinds {
-				c := &c01Case{ID: *id, Kind: "single", K: k, NSrc: nsrc, Fans: fans, Publishers: 1, FailSrc: []int{},
+				c := &c01Case{ID: *id, Kind: "single", Bystander: -1, K: k, NSrc: nsrc, Fans: fans, Publishers: 1, FailSrc: []int{},
 					Blocking: blocking, Persistent: persistent, Buffer: buffer, OneRouter: (*id)%2 == 0, SharedPS: true, PanicVal: (*id) % 3,
 					CtxErr: (*id)%2 == 1, SameUUID: (*id)%5 == 0}
 				*id++
@@ -808,7 +847,7 @@ func c01Doubles(id *int) []*c01Case {
 		for j := i + 1; j < len(all); j++ {
 			for a := range kinds {
 				for b := range kinds {
-					c := &c01Case{ID: *id, Kind: "double", K: 2, NSrc: 2, Fans: [][]int{{2}, {1}}, Publishers: 2, FailSrc: []int{},
+					c := &c01Case{ID: *id, Kind: "double", Bystander: -1, K: 2, NSrc: 2, Fans: [][]int{{2}, {1}}, Publishers: 2, FailSrc: []int{},
 						Buffer: (*id) % 2, OneRouter: (*id)%4 < 2, SharedPS: true, PanicVal: (*id) % 3}
 					*id++
 					c.Script = [][]c01Fault{make([]c01Fault, 4), make([]c01Fault, 4)}
